@@ -71,6 +71,14 @@ def session (args : List String) (lines : List (List String)) : List String :=
           let body : Body := fun _ => natList res
           let h : Handler := if mode == "f" then .fast sig (wrap sig.length body) else .plain sig body
           showInvoke U (scopes.drop (natOf s)) h :: go scopes rest
+        | ["IP", s, mode, sig] =>
+          -- the body panics after its parameters were resolved: invoked exactly once (C04 `invoke_runs_once_with`), the
+          -- panic travels to the caller; an unresolved parameter is reported before the body, as for `I`
+          let sig := natList sig
+          let body : Body := fun _ => []
+          let h : Handler := if mode == "f" then .fast sig (wrap sig.length body) else .plain sig body
+          let shown := showInvoke U (scopes.drop (natOf s)) h
+          (if shown.startsWith "ran " then ((shown.splitOn " res=").headD shown) ++ " panic" else shown) :: go scopes rest
         | ["A", s, mode, spec] =>
           let fs := if spec == "-" then [] else (spec.splitOn ",").map (parseField mode)
           let chain := scopes.drop (natOf s)
